@@ -53,6 +53,7 @@ type FuncContract struct {
 	Pure       bool
 	Concurrent bool
 	Trusted    bool // external assumption (spec file)
+	ArithMath  bool // integer + - * treated as mathematical (no wrap-around) in this function: a listed assumption
 	File       string
 	Line       int
 	Entry      []*Expr // "entry" ghost assignments (unused yet)
@@ -122,7 +123,7 @@ func (cs *ContractSet) forFunc(fn *ssa.Function) *FuncContract {
 
 var clauseKW = map[string]bool{"func": true, "type": true, "pure": true, "uf": true, "lemma": true, "ghost": true, "requires": true, "ensures": true,
 	"modifies": true, "decreases": true, "loop": true, "iterates": true, "concurrent": true, "props": true, "terminates": true,
-	"noinline": true, "nonnil": true, "guards": true, "invariant": true, "latch": true, "params": true, "results": true, "trusted": true, "purefn": true}
+	"noinline": true, "arith": true, "nonnil": true, "guards": true, "invariant": true, "latch": true, "params": true, "results": true, "trusted": true, "purefn": true}
 
 var tagRe = regexp.MustCompile(`^(\w+)\[([A-Z0-9, ]+)\]`)
 
@@ -345,6 +346,10 @@ func (cs *ContractSet) LoadContractFile(path string, pkgKey string) error {
 		case "terminates":
 			if curF != nil {
 				curF.Terminates = true
+			}
+		case "arith":
+			if curF != nil && strings.TrimSpace(rest) == "math" {
+				curF.ArithMath = true
 			}
 		case "noinline":
 			if curF != nil {
